@@ -14,7 +14,7 @@ use std::collections::BTreeMap;
 
 /// gap marker inside templates: a place where SAS ignores blanks and comments
 const GAP: char = '~';
-pub const FILLERS: &[&str] = &["", " ", " /*c*/\n", "/*a*//*b*/"];
+pub const FILLERS: &[&str] = &["", " ", " /*c*/\n", "/*a*//*b*/", "/*c*/ "];
 
 /// (own type, template with one `{}` hole, hole type)
 /// types: S statement, T macro text, O open-code value, E integer expression operand,
@@ -284,31 +284,7 @@ fn zoo_items() -> Vec<String> {
 fn c12_run(cfg: &Config) -> PropRun {
     let ex = Explorer::new(cfg.threads, cfg.cap_s, if cfg.tier == Tier::Quick { 26 } else { 30 });
     let d = if cfg.tier == Tier::Quick { 4 } else { 5 };
-    // materialise depth d-1, index the last layer
-    let inner = chains(d - 1);
-    let top: Vec<&(char, &str, char)> = CONTEXTS.iter().filter(|c| c.0 == 'S').collect();
-    let mut offs: Vec<u64> = vec![0];
-    let s_leaves = leaves('S');
-    let mut total = s_leaves.len() as u64;
-    offs.push(total);
-    for c in &top {
-        total += inner[&c.2].len() as u64;
-        offs.push(total);
-    }
     let nf = FILLERS.len() as u64;
-    let make = |i: u64, buf: &mut String| {
-        let filler = FILLERS[(i % nf) as usize];
-        let i = i / nf;
-        let k = offs.partition_point(|&o| o <= i) - 1;
-        let j = (i - offs[k]) as usize;
-        if k == 0 {
-            apply_filler(s_leaves[j], filler, buf);
-        } else {
-            let c = top[k - 1];
-            let t = c.1.replacen("{}", &inner[&c.2][j], 1);
-            apply_filler(&t, filler, buf);
-        }
-    };
     let trace_every: u64 = if cfg.tier == Tier::Quick { 64 } else { 1024 };
     let visit = |local: &mut Local, input: &str, i: u64| -> Visit {
         local.lexer_runs += 1;
@@ -330,7 +306,49 @@ fn c12_run(cfg: &Config) -> PropRun {
             }
         }
     };
-    let mut report = ex.run_list(&format!("G.chains(depth<={d}) x fillers"), total * nf, make, visit);
+    // chains of depth <= depth; `all_fillers`: every chain with every gap filler, otherwise each
+    // chain with one filler chosen by rotation over the chain index
+    let run_chains = |depth: usize, all_fillers: bool| -> Report {
+        // materialise depth-1, index the last layer
+        let inner = chains(depth - 1);
+        let top: Vec<&(char, &str, char)> = CONTEXTS.iter().filter(|c| c.0 == 'S').collect();
+        let mut offs: Vec<u64> = vec![0];
+        let s_leaves = leaves('S');
+        let mut total = s_leaves.len() as u64;
+        offs.push(total);
+        for c in &top {
+            total += inner[&c.2].len() as u64;
+            offs.push(total);
+        }
+        let mult = if all_fillers { nf } else { 1 };
+        let make = |i: u64, buf: &mut String| {
+            let (filler, i) = if all_fillers { (FILLERS[(i % nf) as usize], i / nf) } else { (FILLERS[(i % nf) as usize], i) };
+            let k = offs.partition_point(|&o| o <= i) - 1;
+            let j = (i - offs[k]) as usize;
+            if k == 0 {
+                apply_filler(s_leaves[j], filler, buf);
+            } else {
+                let c = top[k - 1];
+                let t = c.1.replacen("{}", &inner[&c.2][j], 1);
+                apply_filler(&t, filler, buf);
+            }
+        };
+        ex.run_list(
+            &format!("G.chains(depth<={depth}) x {}", if all_fillers { "all gap fillers" } else { "one gap filler per chain (rotating)" }),
+            total * mult,
+            make,
+            visit,
+        )
+    };
+    let mut report = if cfg.tier == Tier::Quick {
+        let mut r = run_chains(d - 1, true);
+        r.absorb(run_chains(d, false));
+        r
+    } else {
+        let mut r = run_chains(d - 1, true);
+        r.absorb(run_chains(d, false));
+        r
+    };
     // sequences of two programs: the second starts from the configuration the first leaves
     let dd = if cfg.tier == Tier::Quick { 1 } else { 2 };
     let seq = programs(dd, false);
@@ -407,7 +425,7 @@ fn c12_run(cfg: &Config) -> PropRun {
     report.distinct_nontrivial = ex.distinct_nontrivial.load(std::sync::atomic::Ordering::Relaxed);
     PropRun {
         report,
-        rule: format!("every derivation chain of the construct grammar G ({} contexts, 9 hole types) of depth <= {d}, each with gap filler in {{none, blank, blank+comment+newline}}; every ordered pair of programs of depth <= {dd}; non-trivial = mode stack depth >= 6 reached; states/transitions = end configurations at the token boundaries of every {trace_every}th program", CONTEXTS.len()),
+        rule: format!("every derivation chain of the construct grammar G ({} contexts, 9 hole types) of depth <= {} with every gap filler of {{none, blank, blank+comment+newline, two adjacent comments, comment+blank}}, and of depth <= {d} with one of these fillers per chain (rotating over the chain index); every ordered pair of programs of depth <= {dd}; one well-formed instance of every macro statement keyword and every argument-taking built-in function inside every statement context of depth <= 2 with every filler; non-trivial = mode stack depth >= 6 reached; states/transitions = end configurations at the token boundaries of every {trace_every}th program", CONTEXTS.len(), d - 1),
         oracle: "no error at all; end-of-input configuration = ([Default], nesting 0, pending [false], no checkpoint)".into(),
     }
 }
